@@ -149,28 +149,18 @@ Definition obs_eqb (a b : obs) : bool :=
               && list_eqb event_eqb (ob_logafter a) (ob_logafter b)
      end.
 
-(* Lookups after a FAILED start retry creations on the state the failed attempt left behind.  The model carries
-   that state (stored Injects, fields, registry) but records dependents per component where the code records them
-   per Meta object (per version); with substituting post-processors the stale check of a retry can therefore
-   differ, so those lookups are compared for scenarios without substitution only. *)
-Definition scn_no_subst (s : scenario) : bool :=
-  forallb (fun cc => match c_proc cc with
-                     | Some (_, PUser early after) =>
-                       forallb (fun x => match snd x with ENone => true | EFresh => false end) early
-                       && forallb (fun x => match snd x with ANone => true | _ => false end) after
-                     | _ => true
-                     end) (s_pop s).
-
-Definition failed_lookups_eqb (s : scenario) (a b : obs) : bool :=
+(* Lookups after a FAILED start retry creations on the state the failed attempt left behind (stored Injects,
+   fields, registry, dependents per version): their results and the events they cause are compared too.  Only the
+   registry HISTORY of such retries is left out: the repeated property post-processing accumulates duplicate
+   candidates in an order the model does not reproduce (1 of 467 failed starts in a C09 sweep). *)
+Definition failed_lookups_eqb (a b : obs) : bool :=
   match ob_outcome a with
-  | OErr => if scn_no_subst s
-            then list_eqb ltoken_eqb (ob_lookups a) (ob_lookups b) && list_eqb event_eqb (ob_logafter a) (ob_logafter b)
-            else true
+  | OErr => list_eqb ltoken_eqb (ob_lookups a) (ob_lookups b) && list_eqb event_eqb (ob_logafter a) (ob_logafter b)
   | _ => true
   end.
 
 Definition wcheck (c : wcase) : bool :=
-  let m := model_obs repaired c in obs_eqb m (w_obs c) && failed_lookups_eqb (w_scn c) m (w_obs c).
+  let m := model_obs repaired c in obs_eqb m (w_obs c) && failed_lookups_eqb m (w_obs c).
 
 Definition wmismatches (cs : list wcase) : list nat :=
   map w_id (filter (fun c => negb (wcheck c)) cs).
